@@ -94,19 +94,14 @@ func (c *specCtx) tr(x *SExpr) Value {
 		base := c.tr(x.Args[0])
 		return c.field(base, x.Name, x)
 	case "index":
-		b := c.tr(x.Args[0])
 		i := c.intTerm(x.Args[1])
-		switch b.K {
-		case VSlice:
-			if b.ElemU {
+		if inner := x.Args[0]; inner.Kind != "old" {
+			if b := c.tr(inner); b.K == VSlice && b.ElemU {
 				return uV(Select(Select(e.memU(), b.Ref), Add(b.Off, i)))
 			}
-			return intV(Select(Select(e.mem(), b.Ref), Add(b.Off, i)))
-		case VStr:
-			return intV(Select(b.Arr, Add(b.Off, i)))
 		}
-		c.errorf("spec: cannot index %s", x.Args[0].String())
-		return intV(IntLit(0))
+		arr, off := c.seqArgs(x.Args[0])
+		return intV(Select(arr, Add(off, i)))
 	case "un":
 		switch x.Name {
 		case "!":
@@ -328,7 +323,16 @@ func (c *specCtx) field(base Value, name string, x *SExpr) Value {
 	return e.loadField(id, *lf)
 }
 
-func (c *specCtx) seqArgs(v Value, x *SExpr) (arr, off *Term) {
+func (c *specCtx) seqArgs(x *SExpr) (arr, off *Term) {
+	if x.Kind == "old" {
+		a, o := c.seqArgs(x.Args[0])
+		if c.oldMap == nil {
+			c.errorf("old() used where no old state exists")
+			return a, o
+		}
+		return a.Subst(c.oldMap), o.Subst(c.oldMap)
+	}
+	v := c.tr(x)
 	switch v.K {
 	case VSlice:
 		return Select(c.e.mem(), v.Ref), v.Off
@@ -427,7 +431,7 @@ func (c *specCtx) call(x *SExpr) Value {
 			ai++
 			switch pk {
 			case "seq":
-				arr, off := c.seqArgs(c.tr(a), a)
+				arr, off := c.seqArgs(a)
 				args = append(args, arr, off)
 			case "int":
 				args = append(args, c.intTerm(a))
